@@ -41,7 +41,7 @@ def main():
     if "--skip-demo" in args and os.path.exists(vfile):
         res.update(json.load(open(vfile)))
     if "--skip-demo" not in args:
-        run = meta["demo"]["run"].replace("<repo>", wt).replace("<worktree>", wt)
+        run = meta["demo"]["run"].replace("<repo>", wt).replace("<worktree>", wt).replace("<tree>", wt)
         demo_dst = meta["demo"].get("path_in_repo", "").split()[0] if meta["demo"].get("path_in_repo") else ""
         demo_src = [f for f in os.listdir(out) if f.endswith("_test.go") or f.endswith(".go")]
         if demo_dst and demo_dst.endswith(".go") and len(demo_src) == 1 and re.match(r"\s*cp \S+ \S+ && ", run) and "cd " not in run:
